@@ -166,11 +166,11 @@ CHECKS.update({
                           "over bounded-exhaustive label patterns and structured matrices (bounded stand-in for the floating-point clauses)",
                 note=OTHER_NOTE),
     "C11": dict(cat="other", ref="DESIGN §8 C11",
-                text="Exact symbolic execution of the real TTNS/TTNO code (todense, add, scale, apply, expectation, 1-DoF RDMs) for EVERY rooted ordered tree shape with up to 4(5) nodes "
+                text="Exact symbolic execution of the real TTNS/TTNO code (todense, add, scale, apply, expectation, site / two-site / 1-DoF / 2-DoF RDMs in the order of the key) for EVERY rooted ordered tree shape with up to 4(5) nodes "
                      "(all tensor values; polynomial identities); runtime contracts on TTNS/TTNO methods (constructor, todense, add, scale, copy, apply, canonicalise, lossless compress, norm, expectation, site/DoF RDMs, "
-                     "entropies, chain->tree conversion, find_path) against an independent recursive tree contraction over the enumeration of rooted ordered tree shapes "
+                     "site / pair / bond entropies, mutual information, chain->tree conversion, find_path) against an independent recursive tree contraction over the enumeration of rooted ordered tree shapes "
                      "(every child order is its own case), groupings and dummy placements. Bounded.",
-                technique="runtime contracts against an independent tree contraction over enumerated tree shapes (bounded stand-in)",
+                technique="exact symbolic execution of the real tree code on indeterminate tensors (polynomial normal forms) + kernel-stub proofs of the gauge moves; runtime contracts against an independent tree contraction over enumerated tree shapes (bounded stand-in)",
                 note=OTHER_NOTE + " print_tree shim is part of the trusted base."),
     "C12": dict(cat="other", ref="DESIGN §8 C12, S.2",
                 text="Call by contract at the local propagator on every rooted ordered tree shape: the real evolve_tdvp_ps / evolve_tdvp_ps2 pose exactly the one-site / zero-site (two-site / one-site) problems of the tree projector-splitting integrator with generator x time = +-coeff tau/2 J^H H J (independent frame contraction), in the integrator's order, each posed in the state the previous one produced - exact for all tensor values and kernel results. "
